@@ -400,7 +400,6 @@ class ValueWrapper(Term):
         if isinstance(value, (date, time)):
             return cls.get_formatted_value(value.isoformat(), ctx)
         if isinstance(value, str):
-            value = value.replace(quote_char, quote_char * 2)
             if ctx.dialect == Dialects.MYSQL:
                 value = value.replace("\\", "\\\\")
             return format_quotes(value, quote_char)
